@@ -52,6 +52,7 @@ class AbsFunc:
         ]
         a.n_calls = 0
         a.name = name
+        a.vector = False
         self._a = a
         d = self.__dict__
         d["__name__"] = name
@@ -127,6 +128,10 @@ class AbsFunc:
             outs = [T(self.term(values, o)) for o in range(len(a.F))]
         if a.out_keys:
             return dict(zip(a.out_keys, outs))
+        if getattr(a, "vector", False):
+            from .values import stack_list
+
+            return stack_list(outs)  # one array-valued output leaf
         if a.outputs == 1:
             return outs[0]
         return tuple(outs)
@@ -139,7 +144,7 @@ class AbsFunc:
 _COEFFS = [3, 5, 7, 11, 13, 17, 19]
 
 
-def native_function(name, params, outputs=1, out_keys=None):
+def native_function(name, params, outputs=1, out_keys=None, vector=False):
     """real function `name(<signature>)` returning c0 + sum_i c_i * arg_i (per output a different
     coefficient vector); integer-valued floats stay exact in float32 for small inputs."""
     parts = []
@@ -160,6 +165,8 @@ def native_function(name, params, outputs=1, out_keys=None):
 
     if out_keys:
         body = "{" + ", ".join(f"{k!r}: {expr(o)}" for o, k in enumerate(out_keys)) + "}"
+    elif vector:
+        body = "__import__('jax').numpy.stack([" + ", ".join(expr(o) for o in range(n_out)) + "])"
     elif n_out == 1:
         body = expr(0)
     else:
